@@ -162,7 +162,10 @@ func (dm *DMap) deleteKeys(ctx context.Context, keys ...string) (int, error) {
 				return 0, protocol.ConvertError(err)
 			}
 
-			return 0, protocol.ConvertError(cmd.Err())
+			err = protocol.ConvertError(cmd.Err())
+			if err != nil {
+				return 0, err
+			}
 		}
 	}
 
